@@ -326,6 +326,9 @@ def rule_c18(an, res):
                 for b in ops.find_bodies(top, single):
                     ssum.add(body_summary(b, roles, subject_subst(b, single)))
             for top in method_segments(an, cm, roles, m, res):
+                if ops.empty_range_exit(top, m):
+                    res.ob('R-SIB-BODY', ok=True)       # empty range: no single operation to compare with
+                    continue
                 bodies = ops.find_bodies(top, m)
                 rsum = set()
                 for b in bodies:
@@ -522,7 +525,7 @@ def rule_c01(an, res):
                         res.ob('R-LOOKUP-PROV', ok=False)
                         V(res, prop, 'R-LOOKUP-PROV', cm, m.key(), 'a range element is answered / handled without consulting the index for it',
                           site_of_seg(s2, m), 'iteration path [%s]' % ' '.join(s2.valuation()))
-                if k in ('INSERT', 'FIND', 'ERASE') and not ops.find_bodies(top, m) and not top.loops:
+                if k in ('INSERT', 'FIND', 'ERASE') and not ops.find_bodies(top, m) and not top.loops and not ops.empty_range_exit(top, m):
                     res.ob('R-LOOKUP-PROV', ok=False)
                     V(res, prop, 'R-LOOKUP-PROV', cm, m.key(), 'path does not consult the index for its key', site_of_seg(top, m), '')
                 for seg in top.all_segments():
